@@ -200,3 +200,122 @@ BOUNDS_TEXT = "two images (sections A, B | C), 0..2 two-byte holes in A at symbo
 ASSUMED = ["the bc_imm11 specification row of contracts/relocspec.py (RVC CJ format: signed 12-bit even byte offset)", "holes are sorted by offset and do not overlap (as do_relaxations produces them)"]
 NOT_COVERED = ["that the relaxed program computes the same results (needs execution / an emulator)", "do_relaxations' selection loop and relocation replacement, alignment of shifted sections (see C12 / source TODO)",
                "more than two holes per section, holes in several sections (shape bound)"]
+
+
+# ---- do_relaxations: modular (relocation class = specification stub, _apply_relaxation_holes = recorder) --------------------
+def _mk_relax(c, g):
+    env = {"data": MD.SymBuf.fresh(c, "data", 16), "symval": make_value("int", "symval", c), "aA": make_value("int", "aA", c), "add0": make_value("int", "add0", c)}
+    from pyvc.sym import SymBool
+    env["sh0"] = SymBool(z3.Bool("shrink0"))
+    env["sh1"] = SymBool(z3.Bool("shrink1"))
+    return {"args": [], "env": env, "inputs": {k: v for k, v in env.items() if k != "data"}}
+
+
+def _relax_call(fn, env, args, kwargs):
+    from ppci.binutils.linker import Linker
+    from ppci.binutils.objectfile import ObjectFile, RelocationEntry
+    rec = {"can": [], "do": [], "holes": None}
+    shrink = {0: env.sh0, 1: env.sh1}
+
+    class Short:
+        name = "short"
+
+        def __init__(self, symbol_name, offset=0, addend=0):
+            pass
+
+    class Long:
+        name = "long"
+
+        def __init__(self, symbol_name, offset=0, addend=0):
+            self.symbol_name, self.offset, self.addend = symbol_name, offset, addend
+
+        @classmethod
+        def size(cls):
+            return 4
+
+        def _idx(self):
+            return 0 if (self.offset is env.off0 or (not S.active() and self.offset == env.off0)) else 1
+
+        def can_shrink(self, sym_value, reloc_value):
+            rec["can"].append((self._idx(), sym_value, reloc_value))
+            return shrink[self._idx()]
+
+        def do_shrink(self, sym_value, data, reloc_value):
+            i = self._idx()
+            if S.active():
+                out = MD.SymBuf.fresh(ctx(), "short%d" % i, 2)
+            else:
+                out = bytearray([0x01 + i, 0xA0])
+            rec["do"].append((i, data, out))
+            return out, [Short(None)]
+    arch = types.SimpleNamespace(isa=types.SimpleNamespace(relocation_map={"long": Long, "short": Short}), name="spec")
+    lk = Linker(arch)
+    dst = lk.dst = ObjectFile(arch)
+    A = dst.get_section("A", create=True)
+    A.data = env.data.snapshot() if isinstance(env.data, MD.SymBuf) else bytearray(env.data)
+    env["data0"] = list(A.data.items) if isinstance(A.data, MD.SymBuf) else list(A.data)
+    A.address = env.aA
+    dst.add_symbol(0, "target", "global", env.symval, "A", "func", 0)
+    r0 = dst.add_relocation(RelocationEntry("long", 0, "A", env.off0, env.add0))
+    r1 = dst.add_relocation(RelocationEntry("long", 0, "A", env.off1, 0))
+    lk._apply_relaxation_holes = lambda hole_map: rec.__setitem__("holes", {k: list(v) for k, v in hole_map.items()})
+    env.update({"lk": lk, "rec": rec, "A": A, "dst": dst})
+    fn(lk)
+    return dst
+
+
+def _relax_pre(e):
+    return []
+
+
+def _relax_post(e):
+    o = e.old if S.active() else e
+    rec = e.rec
+    sh = [bool(o.sh0), bool(o.sh1)]          # forks: one path per combination
+    offs = [o.off0, o.off1]
+    out = [("can_shrink is asked once per relocation, with S = symbol value + section address and P = section address + offset",
+            len(rec["can"]) == 2 and all(bool_(sv == o.symval + o.aA) and bool_(rv == o.aA + offs[i]) for (i, sv, rv) in rec["can"]))]
+    rel = e.dst.relocations
+    out.append(("still two relocations", len(rel) == 2))
+    want_holes = [(offs[i] + 2, 2) for i in (0, 1) if sh[i]]
+    if want_holes:
+        got = (rec["holes"] or {}).get("A", [])
+        out.append(("the holes handed on are (offset + 2, 2) for every shrunk relocation, sorted by offset",
+                    len(got) == len(want_holes) and all(bool_(g[0] == w[0]) and g[1] == w[1] for g, w in zip(got, want_holes))))
+    else:
+        out.append(("nothing to relax: no holes are punched", rec["holes"] is None))
+    if len(rel) == 2:
+        for i in (0, 1):
+            match = [r for r in rel if bool_(r.offset == offs[i])]
+            ok = len(match) >= 1 and any(r.reloc_type == ("short" if sh[i] else "long") and r.symbol_id == 0 and r.section == "A"
+                                         and bool_(r.addend == (o.add0 if i == 0 else 0)) for r in match)
+            out.append(("relocation %d is %s at the same site with the same symbol and addend" % (i, "replaced by the short form" if sh[i] else "kept"), ok))
+    new = MD.buf_items(e.A.data)
+    old_items = e.data0
+    out.append(("section length unchanged by do_relaxations itself", len(new) == len(old_items)))
+    patched = {}
+    for (i, _data_in, short) in rec["do"]:
+        si = MD.buf_items(short)
+        patched[offs[i]] = si[0]
+        patched[offs[i] + 1] = si[1]
+    for k in range(min(len(new), len(old_items))):
+        if k in patched:
+            out.append(("byte %d is the patched half-word of the shrunk instruction" % k, new[k] == patched[k]))
+        else:
+            out.append(("byte %d outside the patched half-words is unchanged (before the holes are punched)" % k, new[k] == old_items[k]))
+    return out
+
+
+def bool_(x):
+    return bool(x)
+
+
+BOUNDED.append(Contract(
+    "ppci.binutils.linker:Linker.do_relaxations", "C13",
+    label="Linker.do_relaxations [shape-bounded: 2 relaxable relocations at fixed offsets in a 16-byte section; relocation class and hole punching abstracted]",
+    grid=[{"off0": a, "off1": b} for a, b in ((0, 4), (2, 8), (4, 12))],
+    modules=MODS, make=_mk_relax, call=_relax_call, requires=_relax_pre, ensures=_relax_post,
+    sample_inputs=lambda g, rnd: [{"symval": 4, "aA": 0x100, "add0": 0, "sh0": a, "sh1": b} for a in (True, False) for b in (True, False)],
+    replay_args=lambda g, v: {"args": [], "env": dict(list(v.items()) + [("data", bytearray(range(16, 32)))])}))
+CONTRACTS.append(BOUNDED[-1])
+BOUNDED_LABELS.append(BOUNDED[-1].label)
